@@ -7,6 +7,7 @@ import (
 	"bytes"
 	"compress/flate"
 	"hash/crc32"
+	"os"
 	"time"
 )
 
@@ -24,6 +25,8 @@ type Entry struct {
 	// DeclaredHuge, when non-zero, overrides Declared with an uncompressed size that does not fit an int64 (zip64 header)
 	DeclaredHuge uint64 `json:"declared_huge,omitempty"`
 	BadCRC       bool   `json:"bad_crc,omitempty"`
+	// Link, when non-empty, makes the entry a symbolic link (mode bit set in the header) whose stored content is the target.
+	Link string `json:"link,omitempty"`
 	// Nested, when non-nil, replaces Data by the bytes of the nested archive.
 	Nested []Entry `json:"nested,omitempty"`
 }
@@ -62,6 +65,10 @@ func Build(entries []Entry) ([]byte, error) {
 		h := &zip.FileHeader{Name: e.Name, Modified: mod, Method: zip.Deflate}
 		if e.Store {
 			h.Method = zip.Store
+		}
+		if e.Link != "" {
+			h.SetMode(os.ModeSymlink | 0o777)
+			data = []byte(e.Link)
 		}
 		if e.Dir {
 			h.Method = zip.Store
